@@ -35,14 +35,16 @@ RULE_TEXT = (
     'scenario kinds: "graph" (one child evaluates 150 seeded digraphs: '
     'evaluations counts scenarios, counters.graphs counts graphs) and '
     '"project" (2-4 apps x 0-2 pending evolutions + optional new model, '
-    'random deps, random pre-applied subset, 20% deliberate cycles). '
+    'random deps, random pre-applied subset, 20% deliberate cycles) and '
+    '"migdep" (evolutions, incl. the one handing an app over to migrations, '
+    'declaring AFTER_/BEFORE_MIGRATIONS on pending migrations of a '
+    'migrations-only app). '
     'Non-trivial = graph scenario, or project whose run had >= 2 units and '
     '>= 1 declared dependency in force; distinct = digest of the dependency '
     'configuration.')
 ASSUMPTIONS = [
     'bracket granularity: labels of one app merged in one applying_evolution '
     'bracket are ordered by their position in the payload list',
-    'migration dependencies are exercised by C10 scenarios, not here',
 ]
 
 APPS = ['va', 'vb', 'vc', 'vd']
@@ -53,6 +55,8 @@ def generate(seed, index, tier):
     if index % 4 == 0:
         return {'kind': 'graph', 'gseed': rng.randrange(1 << 30),
                 'count': 150}
+    if index % 4 == 2 and rng.random() < 0.6:
+        return _gen_migdep(rng)
     napps = rng.choice([2, 3, 3, 4])
     apps = APPS[:napps]
     order = apps[:]
@@ -124,6 +128,135 @@ def generate(seed, index, tier):
             st.setdefault('app_deps', {}).setdefault(
                 'AFTER_EVOLUTIONS', []).append(y)
     return {'kind': 'project', 'project': project, 'cycle_added': cyc}
+
+
+def _gen_migdep(rng):
+    """Evolutions that declare ordering against *migrations* of another
+    app: vc is a migrations-only app whose 0002 is pending; va's evolution
+    (plain, or the one that hands va over to migrations) and optionally
+    vb's declare AFTER_/BEFORE_MIGRATIONS on it, per evolution or per app."""
+    intf = lambda n: {'name': n, 'kind': 'Integer', 'attrs': {'null': True}}
+    vc0 = {'name': 'Node', 'fields': [intf('n')], 'meta': {}}
+    vc1 = copy.deepcopy(vc0)
+    vc1['fields'].append(intf('m'))
+    vc_files = {
+        '0001_initial': {'from': 0, 'text': spec.render_migration(
+            [], [{'op': 'CreateModel', 'model': vc0}], initial=True)},
+        '0002_add_m': {'from': 1, 'text': spec.render_migration(
+            [['vc', '0001_initial']],
+            [{'op': 'AddField', 'model': 'Node', 'field': intf('m'),
+              'default': False}])}}
+    two = rng.random() < 0.5
+    if two:
+        vc2 = copy.deepcopy(vc1)
+        vc2['fields'].append(intf('o'))
+        vc_files['0003_add_o'] = {'from': 1, 'text': spec.render_migration(
+            [['vc', '0002_add_m']],
+            [{'op': 'AddField', 'model': 'Node', 'field': intf('o'),
+              'default': False}])}
+    project = {'apps': {'vc': {
+        'v0': [vc0], 'steps': [{'evos': [],
+                                'target': [vc2 if two else vc1]}],
+        'no_evolutions_pkg': True, 'migrations': {'files': vc_files}}},
+        'order': ['vc'], 'databases': ['default']}
+    targets = ['0002_add_m'] + (['0003_add_o'] if two else [])
+    expect = []           # (kind, app, label, migration)
+    apps = ['va'] + (['vb'] if rng.random() < 0.5 else [])
+    for a in apps:
+        base = {'name': 'Item', 'fields': [intf('a')], 'meta': {}}
+        move = a == 'va' and rng.random() < 0.6
+        kind = rng.choice(['AFTER_MIGRATIONS', 'AFTER_MIGRATIONS',
+                           'BEFORE_MIGRATIONS'])
+        tgt = rng.choice(targets)
+        per_app = rng.random() < 0.3
+        app = {'v0': [base]}
+        t = copy.deepcopy(base)
+        t['fields'].append(intf('f1'))
+        target = [t]
+        add = {'op': 'AddField', 'model': 'Item', 'field': intf('f1')}
+        if move:
+            # the hand-over evolution also changes the schema, so that it
+            # is bracketed by applying_/applied_evolution
+            evo = {'label': a + '_move', 'mutations': [
+                add, {'op': 'MoveToDjangoMigrations',
+                      'mark_applied': ['0001_initial']}], 'deps': {}}
+            app['migrations'] = {'files': {'0001_initial': {
+                'from': 1, 'text': spec.render_migration(
+                    [], [{'op': 'CreateModel', 'model': t}],
+                    initial=True)}}}
+        else:
+            evo = {'label': a + '_x1', 'mutations': [add], 'deps': {}}
+        step = {'evos': [evo], 'target': target}
+        if per_app:
+            step['app_deps'] = {kind: [['vc', tgt]]}
+        else:
+            evo['deps'][kind] = [['vc', tgt]]
+        app['steps'] = [step]
+        project['apps'][a] = app
+        expect.append([kind, a, evo['label'], tgt])
+    order = list(project['apps'])
+    rng.shuffle(order)
+    project['order'] = order
+    return {'kind': 'migdep', 'project': project, 'expect': expect}
+
+
+def _exec_migdep(scn, res, stats, viols):
+    P = scn['project']
+    sts = proj.states(P)
+    with runner.Workspace() as ws:
+        proj.deploy(ws, P, 0, sts)
+        r0 = ws.run('evolve', {'execute': True})
+        if r0.status != 'ok':
+            raise runner.HarnessError('migdep install failed: %s' % (
+                (r0.exit or {}).get('msg'),))
+        proj.deploy(ws, P, 1, sts, clean=True)
+        r = ws.run('evolve', {'execute': True})
+        res['runs'] = ws.nruns
+    res['nontrivial'] = True
+    res['shape'] = spec.canon(['migdep', P['order'], scn['expect'],
+                               sorted(P['apps']['vc']['migrations'][
+                                   'files'])])
+    stats['migration_dep_scenarios'] = 1
+    detail = dict(kind='migdep', order=P['order'], expect=scn['expect'])
+    if r.status != 'ok':
+        viols.append(violation(
+            'C09.satisfiable_rejected', status=r.status,
+            msg=((r.exit or {}).get('msg') or '')[:300], **detail))
+        return res
+    seq = []
+    for s in r.signals():
+        if s['name'] in ('applying_evolution', 'applied_evolution'):
+            for l in s['p'].get('labels') or []:
+                seq.append((s['name'], s['p']['app'], l))
+        elif s['name'] in ('applying_migration', 'applied_migration'):
+            seq.append((s['name'],) + tuple(s['p']['migration']))
+    detail['observed'] = [list(x) for x in seq]
+    for kind, a, label, mig in scn['expect']:
+        evo_start = ('applying_evolution', a, label)
+        evo_end = ('applied_evolution', a, label)
+        mig_start = ('applying_migration', 'vc', mig)
+        mig_end = ('applied_migration', 'vc', mig)
+        missing = [list(x) for x in (evo_start, evo_end, mig_start, mig_end)
+                   if seq.count(x) != 1]
+        if missing:
+            viols.append(violation('C09.unit_missing', unit=missing[0],
+                                   **detail))
+            continue
+        if kind == 'AFTER_MIGRATIONS':
+            ok = seq.index(mig_end) < seq.index(evo_start)
+        else:
+            ok = seq.index(evo_end) < seq.index(mig_start)
+        if kind == 'AFTER_MIGRATIONS':
+            stats['after_pending_migration'] = 1
+        if not ok:
+            viols.append(violation(
+                'C09.migration_precedence_violated', dep=kind,
+                evolution=[a, label], migration=['vc', mig],
+                moves_to_migrations=label.endswith('_move'), **detail))
+    res['sample'] = {'kind': 'migdep', 'order': P['order'],
+                     'expect': scn['expect'],
+                     'observed': detail['observed'][:8]}
+    return res
 
 
 def _render_new_models(project):
@@ -246,6 +379,8 @@ def execute(scn):
         res['sample'] = {'kind': 'graph', 'gseed': scn['gseed'],
                          'graphs': scn['count']}
         return res
+    if scn['kind'] == 'migdep':
+        return _exec_migdep(scn, res, stats, viols)
     P0 = scn['project']
     P = _render_new_models(P0)
     sts = proj.states(P)
@@ -356,6 +491,16 @@ def execute(scn):
 
 
 def shrinks(scn):
+    if scn['kind'] == 'migdep':
+        # drop one app with its expectation
+        for a in ('vb', 'va'):
+            if a in scn['project']['apps'] and len(scn['expect']) > 1:
+                c = copy.deepcopy(scn)
+                del c['project']['apps'][a]
+                c['project']['order'].remove(a)
+                c['expect'] = [e for e in c['expect'] if e[1] != a]
+                yield c
+        return
     if scn['kind'] != 'project':
         if scn.get('count', 0) > 10:
             c = copy.deepcopy(scn)
